@@ -15,10 +15,11 @@
 EXTENDS TraceBytes
 
 VARIABLES store, mem, latest, call, released, nAcc, watch, lastRet,
-          resultOf    \* ghost for C09: <<alg, key blob, message>> -> digest of (signature, successor)
+          resultOf,   \* ghost for C09: <<alg, key blob, message>> -> digest of (signature, successor)
+          base        \* ghost: [key id -> counter (bit vector) the walk's key started from]
 
 avars == <<store, mem, latest, call, released, nAcc, watch, lastRet>>
-tvars == <<l, bad, cache, store, mem, latest, call, released, nAcc, watch, lastRet, resultOf>>
+tvars == <<l, bad, cache, store, mem, latest, call, released, nAcc, watch, lastRet, resultOf, base>>
 
 (* ---- key states are [alg, b]: hash variant and key blob ---- *)
 KS(alg, b) == [alg |-> alg, b |-> b]
@@ -60,12 +61,18 @@ A == INSTANCE HssApi WITH
         ContinueFromLatest <- TRUE, ReleaseEarly <- FALSE, WatchSet <- {<<"all">>}
 
 (* ---- invariants of the model, evaluated on every state of the replay ---- *)
+(* the counter a walk's key starts from: 0, or the value the scenario patched in right after key   *)
+(* generation ("start_ctr" of the keygen event; lets walks begin just before a subtree roll-over   *)
+(* or the end of a long lifetime)                                                                  *)
+StartCtrHex(e) == IF "start_ctr" \in DOMAIN e THEN e.start_ctr ELSE "0000000000000000"
+RECURSIVE BvAddSmall(_, _)
+BvAddSmall(v, k) == IF k = 0 THEN v ELSE BvAddSmall(BvInc(v), k - 1)
 LifetimeAccountingT ==
     \A k \in KeyIds :
         latest[k] # TNoKey =>
             IF IsWipedState(latest[k]) THEN TRUE
             ELSE LET p == ParseKey(latest[k].alg, latest[k].b) IN
-                 p.ok /\ (nAcc[k] < 1073741824 => p.ctr = BvFromNat(nAcc[k]))
+                 p.ok /\ (nAcc[k] < 400 => p.ctr = BvAddSmall(base[k], nAcc[k]))
 
 InvNames == <<"ReleaseSafe", "CbAtMostOnce", "SigOnlyAfterAcceptedCb", "NoCbOnFailure", "BadKeyNeverSigns", "LifetimeAccounting", "NoReuse">>
 InvHolds(i) == CASE i = 1 -> A!ReleaseSafe [] i = 2 -> A!CbAtMostOnce
@@ -103,6 +110,7 @@ Init2 ==
     /\ l = 1 /\ bad = <<>> /\ cache = <<>>
     /\ A!Init
     /\ resultOf = <<>>
+    /\ base = [k \in KeyIds \cup {"nokey"} |-> BvZero]
 
 JudgeNow == LET j == Judge(E, cache) IN [v |-> Tag(j.v, l), c |-> j.c]
 
@@ -116,9 +124,10 @@ EvKeygen ==
     /\ LET j == Judge(E, cache) IN
        /\ cache' = j.c
        /\ IF E.res = "ok" /\ "k" \in DOMAIN E
-          THEN /\ A!KeygenWith(E.k, KS(E.alg, B(E.sk)))
+          THEN /\ A!KeygenWith(E.k, KS(E.alg, B(StartCtrHex(E)) \o Drop(B(E.sk), 8)))
+               /\ base' = [base EXCEPT ![E.k] = BvFromBytes(B(StartCtrHex(E)))]
                /\ Advance(j.v)
-          ELSE /\ UNCHANGED avars
+          ELSE /\ UNCHANGED <<avars, base>>
                /\ Advance(j.v)
     /\ UNCHANGED resultOf
 
@@ -128,19 +137,19 @@ EvLoad ==
        THEN /\ A!Reload(E.k)
             /\ Advance(CmpBytes("reload_value", store[E.k].b, E.mem_after))
        ELSE /\ UNCHANGED avars /\ Advance(<<Verdict("reload_failed", "ok", E.res)>>)
-    /\ UNCHANGED <<cache, resultOf>>
+    /\ UNCHANGED <<cache, resultOf, base>>
 
 EvPersist ==
     /\ E.ev = "persist" /\ call.pc = "idle"
     /\ A!Persist(E.k)
     /\ Advance(CmpBytes("persist_value", mem[E.k].b, E.key))
-    /\ UNCHANGED <<cache, resultOf>>
+    /\ UNCHANGED <<cache, resultOf, base>>
 
 EvCrash ==
     /\ E.ev = "crash" /\ call.pc = "idle"
     /\ A!Crash
     /\ Advance(<<>>)
-    /\ UNCHANGED <<cache, resultOf>>
+    /\ UNCHANGED <<cache, resultOf, base>>
 
 EvLifetime ==
     /\ E.ev = "lifetime" /\ call.pc = "idle"
@@ -149,7 +158,7 @@ EvLifetime ==
             /\ Advance(Judge(E, cache).v
                        \o CmpBytes("lifetime_of_holder", (IF E.api = "bytes" THEN store[E.k] ELSE mem[E.k]).b, E.key))
        ELSE /\ UNCHANGED avars /\ Advance(Judge(E, cache).v)
-    /\ UNCHANGED <<cache, resultOf>>
+    /\ UNCHANGED <<cache, resultOf, base>>
 
 (* a new walk starts: fresh model state (the tree cache is kept) *)
 EvReset ==
@@ -159,15 +168,17 @@ EvReset ==
     /\ latest' = [k \in KeyIds \cup {"nokey"} |-> TNoKey]
     /\ call' = A!Idle /\ released' = {} /\ nAcc' = [k \in KeyIds \cup {"nokey"} |-> 0]
     /\ lastRet' = A!NoRet /\ resultOf' = <<>>
+    /\ base' = [k \in KeyIds \cup {"nokey"} |-> BvZero]
     /\ Advance(<<>>)
     /\ UNCHANGED <<cache, watch>>
 
 (* events the protocol model has no action for: judged by the data layer only *)
 EvOther ==
-    /\ E.ev \in {"verify", "hook", "info", "hang"} \/ (E.ev = "sign" /\ "k" \notin DOMAIN E)
+    /\ E.ev \in {"verify", "hook", "info", "hang", "sign_mut"} \/ (E.ev = "sign" /\ "k" \notin DOMAIN E)
     /\ call.pc = "idle"
-    /\ LET j == Judge(E, cache) IN cache' = j.c /\ Advance(j.v)
-    /\ UNCHANGED <<avars, resultOf>>
+    /\ LET j == Judge(E, cache) IN cache' = j.c /\ Advance(j.v \o (IF E.ev = "sign" THEN DetVerdict(E) ELSE <<>>))
+    /\ resultOf' = IF E.ev = "sign" THEN RecordResult(E) ELSE resultOf
+    /\ UNCHANGED <<avars, base>>
 
 (* ---- a sign event, replayed step by step ---- *)
 SignStart ==
@@ -180,7 +191,7 @@ SignStart ==
            /\ IF IsBad(E) THEN A!CallSignBad(E.k, KS(E.alg, B(E.key)), B(E.msg), E.plan)
               ELSE A!CallSign(E.k, IF E.api = "bytes" THEN "bytes" ELSE "mem", B(E.msg), E.plan)
     /\ resultOf' = RecordResult(E)
-    /\ UNCHANGED l
+    /\ UNCHANGED <<l, base>>
 
 SignInternal ==
     /\ E.ev = "sign" /\ call.pc \in {"parse", "build", "increment"}
@@ -188,7 +199,7 @@ SignInternal ==
        \/ A!StepBuildWith(B(E.sig))
        \/ A!StepIncrement
     /\ bad' = bad \o Tag(InvVerdicts, l)
-    /\ UNCHANGED <<l, cache, resultOf>>
+    /\ UNCHANGED <<l, cache, resultOf, base>>
 
 SignCallback ==
     /\ E.ev = "sign" /\ call.pc = "callback"
@@ -197,7 +208,7 @@ SignCallback ==
        THEN Advance(CompareSign(E, call, "crash", call.cbCount + 1)
                     \o (IF call.plan = "crash_after" /\ E.api = "bytes" THEN CmpBytes("model_stored_key", call.succ.b, E.stored_key) ELSE <<>>))
        ELSE /\ bad' = bad \o Tag(InvVerdicts, l) /\ UNCHANGED l
-    /\ UNCHANGED <<cache, resultOf>>
+    /\ UNCHANGED <<cache, resultOf, base>>
 
 SignReturn ==
     /\ E.ev = "sign" /\ call.pc \in {"return_ok", "fail", "fail_cb"}
@@ -209,13 +220,13 @@ SignReturn ==
                          THEN <<Verdict("returned_sig_unparsable", "parsable", "not")>> ELSE <<>>))
        \/ /\ A!StepReturnErr
           /\ Advance(CompareSign(E, call, "err", call.cbCount))
-    /\ UNCHANGED <<cache, resultOf>>
+    /\ UNCHANGED <<cache, resultOf, base>>
 
 FinishApi ==
     /\ l = Len(Rec) + 1
     /\ ndJsonSerialize(IOEnv.VERDICT, bad \o Tag(InvVerdictsFull, 0) \o <<[l |-> 0, kind |-> "done", consumed |-> l - 1, total |-> Len(Rec)]>>)
     /\ l' = l + 1
-    /\ UNCHANGED <<bad, cache, avars, resultOf>>
+    /\ UNCHANGED <<bad, cache, avars, resultOf, base>>
 
 NextApi ==
     \/ /\ l <= Len(Rec)
